@@ -945,3 +945,48 @@ Proof.
   rewrite scan_int_fmt_dec; [|apply H2|apply render_no_digit_head; assumption].
   fold (render toks). rewrite IH by assumption. reflexivity.
 Qed.
+
+Lemma skipn_app_exact {A} (a b : list A) n : length a = n -> skipn n (a ++ b) = b.
+Proof. intros <-. induction a; simpl; auto. Qed.
+
+Definition import_range (outbits : Z) : Z * Z :=
+  if outbits =? 8 then (-128, 127) else if outbits =? 16 then (-32768, 32767) else (-2147483648, 2147483647).
+
+Lemma import_shape_values_lemma : forall outbits tag w1 w2 w3 planes rows cols hdr data tail,
+  outbits = 8 \/ outbits = 16 \/ outbits = 32 ->
+  length tag = 4%nat -> good_sep w1 -> good_sep w2 -> good_sep w3 ->
+  1 <= planes <= 2147483647 -> 2 <= rows <= 2147483647 -> 2 <= cols <= 2147483647 ->
+  Forall (fun t => good_sep (fst t)) hdr -> Forall (fun t => good_sep (fst t)) data ->
+  Z.of_nat (length hdr) = 2 + ((if 1 <? planes then planes else 0) + rows + cols) ->
+  Z.of_nat (length data) = planes * rows * cols ->
+  Forall (fun t => in_range (fst (import_range outbits)) (snd (import_range outbits)) (snd t)) data ->
+  no_digit_head tail ->
+  import_m outbits (tag ++ render [(w1, planes); (w2, rows); (w3, cols)] ++ render hdr ++ render data ++ tail)
+  = Some (spec_import planes rows cols (map snd data)).
+Proof.
+  intros outbits tag w1 w2 w3 planes rows cols hdr data tail Hb Ht G1 G2 G3 Hp Hr Hc Hh Hd Lh Ld Rd Htl.
+  unfold import_m.
+  assert (C : exists sb ob, import_conv outbits = Some (sb, ob) /\
+                            Forall (fun t => swrap ob (swrap sb (snd t)) = snd t) data).
+  { destruct Hb as [ -> | [ -> | -> ] ].
+    - exists 16, 8. split; [reflexivity|]. eapply Forall_impl; [|exact Rd]. intros t [A B].
+      change (-128 <= snd t) in A. change (snd t <= 127) in B. rewrite (swrap16_id (snd t)) by lia. apply swrap8_id. lia.
+    - exists 16, 16. split; [reflexivity|]. eapply Forall_impl; [|exact Rd]. intros t [A B].
+      change (-32768 <= snd t) in A. change (snd t <= 32767) in B. rewrite (swrap16_id (snd t)) by lia. apply swrap16_id. lia.
+    - exists 32, 32. split; [reflexivity|]. eapply Forall_impl; [|exact Rd]. intros t [A B].
+      change (-2147483648 <= snd t) in A. change (snd t <= 2147483647) in B. rewrite (swrap32_id (snd t)) by lia. apply swrap32_id. lia. }
+  destruct C as (sb & ob & -> & Hv).
+  change (scanf_bits gint_format) with (Some 32).
+  rewrite (skipn_app_exact tag _ 4%nat Ht).
+  change 3%nat with (length [(w1, planes); (w2, rows); (w3, cols)]).
+  rewrite scan_ints_render; [| constructor; [exact G1|]; constructor; [exact G2|]; constructor; [exact G3|]; constructor | apply render_no_digit_head; [assumption|];
+                               apply render_no_digit_head; assumption].
+  cbn [map snd]. rewrite !swrap32_id by lia.
+  assert (E1 : cols <? 2 = false) by (apply Z.ltb_ge; lia). assert (E2 : rows <? 2 = false) by (apply Z.ltb_ge; lia).
+  rewrite E1, E2. cbn [orb].
+  replace (Z.to_nat (2 + ((if 1 <? planes then planes else 0) + rows + cols))) with (length hdr) by lia.
+  rewrite scan_ints_render; [| assumption | apply render_no_digit_head; assumption].
+  replace (Z.to_nat (planes * rows * cols)) with (length data) by lia.
+  rewrite scan_ints_render by assumption.
+  unfold spec_import. f_equal. f_equal. rewrite map_map. apply map_ext_Forall. assumption.
+Qed.
